@@ -42,7 +42,7 @@ func checkC12(w *World, c *Check) {
 		"go/types + go/ssa; SMT solvers' unsat answers")
 	c.Assume = append(c.Assume,
 		"read-only family = every function/method named MarshalJSON, GobEncode, MarshalBinary, MarshalText, String, Format, Equals, Contains, Count, Collection, First, Normalize, Get, IRIs, ItemsMatch, IsNil, NotEmpty, Is*, ItemsEqual, DerefItem, To*, On* (with an arbitrary non-writing callback), GetID/GetLink/GetType, ItemOrderTimestamp and the CollectionPath accessors, found by scanning the package",
-		"symbolic-length loops without an invariant are unrolled 3 times (those functions' obligations are reported as bounded)",
+		"loops of symbolic trip count are cut by the trivial invariant: one arbitrary iteration from an arbitrary loop state, knowing only that a range index is >= -1 and that a loop-carried slice which enters the loop in memory allocated by this call, and is only replaced by such memory on every back edge, is still in such memory (initiation and preservation are obligations)",
 		"byte-level helpers (escapeQuote, stringBytes, unescape, byteInsertAt) are outside the subset: they are abstracted as pure functions of their arguments; their own frame is checked syntactically: they only index/append slices they created themselves (obligation C12/bytehelpers)")
 	fns := readOnlyFunctions(w)
 	family := map[string]bool{}
@@ -55,6 +55,7 @@ func checkC12(w *World, c *Check) {
 		grp := "C12/" + name
 		guard(c, grp, func() {
 			ex := w.NewExec()
+			ex.autoInv = true // loops of symbolic trip count: one arbitrary iteration from an arbitrary loop state (frame proofs need no invariant)
 			// callee contracts: other members of the family are pure here
 			for g := range family {
 				g := g
@@ -114,6 +115,9 @@ func checkC12(w *World, c *Check) {
 				n++
 				c.Add(&Obligation{Name: fmt.Sprintf("%s/write#%d@%s", grp, n, wr.Fn), Group: grp, Common: ex.assumes, Goal: Not(wr.C), Pos: wr.Pos,
 					Funcs: []string{name}, Bounded: bound, Notes: []string{"store into " + wr.O.String()}, Replay: c12Replay(name)})
+			}
+			for _, so := range ex.sideObls {
+				c.Add(&Obligation{Name: fmt.Sprintf("%s/loop/%s", grp, so.Name), Group: grp, Common: ex.assumes, Hyps: []*Term{so.Hyp}, Goal: so.Goal, Pos: so.Pos, Funcs: []string{name}, Bounded: bound})
 			}
 			c.Add(&Obligation{Name: grp + "/frame", Group: grp, Common: ex.assumes, Goal: TTrue, Pos: ex.pos(fn.Pos()), Funcs: []string{name}, Bounded: bound})
 		})
